@@ -238,14 +238,22 @@ def project_tree(m):
     return rows
 
 
-def observe(v, sid, nodes, mode, names, conforming, want, lines=None):
+XEC = [33, 36, 64, 42, 63, 0]
+XTRANS = str.maketrans("|^&~\\", "!$@*?")
+
+
+def observe(v, sid, nodes, mode, names, conforming, want, lines=None, xec=False):
+    """xec: the same message written with the delimiters ! $ @ * ? instead of the default ones"""
     import_hl7apy()
     from hl7apy.parser import parse_message
     group_names = set(n[0] for n in nodes if n[1] == "GRP") | set([sid])
     if lines is None:
         lines = [msh(v, sid)] + [seg_text(n, i + 1, v) for i, n in enumerate(names[1:])]
+    if xec:
+        lines = [ln.translate(XTRANS) for ln in lines]
+        mode = mode + "+custom_delimiters"
     text = "\r".join(lines)
-    e = {"v": v, "sid": sid, "msgname": sid, "mode": mode, "want": want, "struct": nodes, "input": names, "tree": [], "ec": EC,
+    e = {"v": v, "sid": sid, "msgname": sid, "mode": mode, "want": want, "struct": nodes, "input": names, "tree": [], "ec": XEC if xec else EC,
          "lines_in": [cps(x) for x in lines], "lines_fg": [], "lines_nofg": [], "out_fg": "ok", "out_nofg": "ok",
          "valid": False, "conforming": conforming, "verr": ""}
     try:
@@ -293,13 +301,17 @@ def _chunk(args):
             out.append({"harness_note": "skipped %s %s: placeholder segment (ANYHL7SEGMENT) in the structure" % (v, sid)})
             continue
         insts = instances(st, rnd, quick)
-        for (mode, names, conf) in insts:
+        for k_, (mode, names, conf) in enumerate(insts):
             if want == "C08":
                 out.append(observe(v, sid, nodes, mode, names, conf, want))
+                if k_ % 3 == 0 or not quick:
+                    out.append(observe(v, sid, nodes, mode, names, conf, want, xec=True))
             else:
                 # C03: the plain instance with rich lines, and perturbed ones
                 lines = [msh(v, sid)] + [rich_line(n, v, rnd) for n in names[1:]]
                 out.append(observe(v, sid, nodes, mode + "+rich", names, False, want, lines))
+                if k_ % 3 == 0 or not quick:
+                    out.append(observe(v, sid, nodes, mode + "+rich", names, False, want, lines, xec=True))
                 if mode in ("required_only", "all_children"):
                     for (pm, pn) in perturb(names, v, st_names, rnd, quick):
                         lines = [msh(v, sid)] + [rich_line(n, v, rnd) if not n.startswith("ZZ") else "%s|z1|z2^z3|z4~z5" % n
